@@ -557,12 +557,13 @@ Theorem reduce_classes_spec all :
     /\ (forall y, In y (c_attrs c) -> exists ry, In ry (c_attrs r) /\ key ry = key y /\ dominates_c ry y)
     /\ (forall ry, In ry (c_attrs r) -> ~ In (key ry) (keys (c_attrs c)) -> a_min ry = 0)
     /\ (forall ry, In ry (c_attrs r) -> exists c' y, In c' all /\ c_qname c' = c_qname c /\ In y (c_attrs c') /\ key y = key ry)
-    /\ (exists f, In f all /\ c_qname f = c_qname c /\ c_nillable r = c_nillable f /\ c_ns r = c_ns f).
+    /\ (exists f, In f all /\ c_qname f = c_qname c /\ c_ns r = c_ns f)
+    /\ (c_nillable c = true -> c_nillable r = true).
 Proof.
   intros ND c Hc. destruct (group_by_spec all) as [G1 [G2 G3]].
   destruct (G3 c Hc) as [g [Hg Hcg]]. destruct (G2 _ _ Hg) as [Hne Hq].
   destruct g as [|f g']; [contradiction|]. set (g := f :: g') in *.
-  set (r := mk_fclass (c_qname f) (c_ns f) (existsb c_mixed g) (c_nillable f)
+  set (r := mk_fclass (c_qname f) (c_ns f) (existsb c_mixed g) (existsb c_nillable g)
                       (map cleanup_attr (reduce_attributes (map c_attrs g)))).
   assert (Hr : In r (reduce_classes all)).
   { unfold reduce_classes. apply in_flat_map. exists (c_qname c, g). split; [exact Hg|]. cbn. left. reflexivity. }
@@ -573,7 +574,7 @@ Proof.
   { apply Forall_forall. intros l Hl. apply in_map_iff in Hl as [c0 [<- H0]]. rewrite Forall_forall in ND. apply ND.
     apply (Hq c0 H0). }
   destruct (reduce_attributes_spec _ NDg) as [R1 [R2 [R3 R4]]].
-  split; [cbn; rewrite cleanup_keys; exact R1|]. split; [|split; [|split; [|split]]].
+  split; [cbn; rewrite cleanup_keys; exact R1|]. split; [|split; [|split; [|split; [|split]]]].
   - intros Hm. change (existsb c_mixed g = true). apply existsb_exists. exists c. auto.
   - intros y Hy. destruct (R2 (c_attrs c) y) as [ry [I1 [K1 D1]]]; [apply in_map; exact Hcg|exact Hy|].
     exists (cleanup_attr ry). split; [cbn; apply in_map; exact I1|]. split; [exact K1|apply dominates_cleanup; exact D1].
@@ -583,4 +584,5 @@ Proof.
     destruct (R4 r0 H0) as [l [y [Hl [Hy Ky]]]]. apply in_map_iff in Hl as [c' [<- Hc']].
     exists c', y. destruct (Hq c' Hc') as [Q1 Q2]. repeat split; auto.
   - exists f. destruct (Hq f (or_introl eq_refl)) as [Q1 Q2]. repeat split; auto.
+  - intros Hn. change (existsb c_nillable g = true). apply existsb_exists. exists c. auto.
 Qed.
